@@ -253,9 +253,56 @@ EMPTY_AT_CUT = 'empty-container-at-cut-level'
 STRKEY_AT_CUT = 'str-key-at-cut-level'
 
 
+def depth_none_is_unlimited(chk):
+    """depth=None (and the stock default) cuts nothing however tall the tree is: trees far taller than the
+    generated ones, printed with depth=None, with no depth argument and with depth=height+1, must give the same
+    text, show the innermost leaf and no placeholder. Heights up to what the interpreter's recursion limit lets
+    the unchanged printer reach (the limit is raised for the tallest ones)."""
+    import sys
+    wraps = {'lists': lambda v, i: [v], 'dicts': lambda v, i: {'k': v}, 'tuples': lambda v, i: (v, i),
+             'mixed': lambda v, i: ([v], {'k': v}, (v,), [i, v])[i % 4]}
+    old = sys.getrecursionlimit()
+    try:
+        for h, limit in ((12, None), (35, None), (66, None), (70, None), (150, 40000), (400, 40000)):
+            if limit:
+                sys.setrecursionlimit(limit)
+            for name, wrap in wraps.items():
+                v = 100001
+                for i in range(h):
+                    v = wrap(v, i)
+                desc = {'value': '%d nested %s around the leaf 100001' % (h, name), 'height': h}
+                outs = {}
+                for label, cfg in (('depth=None', {'depth': None}), ('no depth argument', {}),
+                                   ('depth=height+1', {'depth': h + 1}), ('depth=height+50', {'depth': h + 50})):
+                    chk.cov['evaluations'] += 1
+                    try:
+                        with warnings.catch_warnings(record=True) as wl:
+                            warnings.simplefilter('always')
+                            outs[label] = P.pformat(v, width=79, **cfg)
+                    except RecursionError:
+                        outs[label] = RecursionError     # outside "the value can be printed at all"
+                    except Exception as e:  # noqa
+                        chk.violation('C11.raises', 'pformat raised %r for %r with %s' % (e, desc, label), desc)
+                        outs[label] = None
+                texts = {k: o for k, o in outs.items() if isinstance(o, str)}
+                for label, o in texts.items():
+                    if '100001' not in o or '...' in o:
+                        chk.violation('C11.none', '%s cut a tree of height %d: the leaf nested in %d containers is missing '
+                                      'or a placeholder is shown (%s)' % (label, h, h, desc['value']),
+                                      dict(desc, output=o[:2000], config=label))
+                if len(set(texts.values())) > 1:
+                    chk.violation('C11.above-height', 'outputs for depth=None / default / depth > height differ on a tree of '
+                                  'height %d (%s): %r' % (h, desc['value'], {k: len(o) for k, o in texts.items()}), desc)
+                if texts:
+                    chk.nontrivial(('deep', h, name))
+    finally:
+        sys.setrecursionlimit(old)
+
+
 def check_c11(chk, args):
     q = chk.tier == 'quick'
     rng = chk.rng
+    depth_none_is_unlimited(chk)
     vals = universe(chk, 150 if q else 3000, depth=4)
     cases = {}
     meta = {}
@@ -326,7 +373,7 @@ def check_c11(chk, args):
         nrej += 1
         chk.violation('C11.cut', 'output is not the unlimited output with exactly the nodes nested in >= %d containers '
                       'replaced by their placeholders: %r' % (c['N'], d), d)
-    chk.cov['evaluations'] = nprints
+    chk.cov['evaluations'] += nprints
     chk.cov['traces_validated_against_impl'] = len(caselist)
     chk.cov['rule'] = ('container trees of height <= 4 with uniquely identifiable int/str leaves (every kind x length, '
                        'nested, random) x depth in 0..height+2 x widths; TLC compares the parsed output with '
